@@ -456,8 +456,8 @@ M('boot-catalog-test-on-raw-extent', 'fault', ['C16', 'C07'], ['SA-IDENT.sanitiz
 M('inode-map-lookup-on-raw-extent', 'fault', ['C16', 'C07'], ['SA-IDENT.sanitized'],
   [(PY, "                        if len_to_use > 0 and extent_to_use in extent_to_inode:\n                            ino = extent_to_inode[extent_to_use]", "                        if len_to_use > 0 and extent_to_use in extent_to_inode:\n                            ino = extent_to_inode[new_extent_loc]")], 'raw `new_extent_loc`')
 
-M('twin-layout-guard-only-when-bytes-were-added', 'twin', ['C17'], [],
-  [(PY, "                self.udf_logical_volume_integrity.size_tables[0] += num_extents_to_add\n\n        self._layout_changed = True\n", "                self.udf_logical_volume_integrity.size_tables[0] += num_extents_to_add\n\n        if num_bytes_to_add + num_partition_bytes_to_add > 0:\n            self._layout_changed = True\n")])
+M('layout-guard-only-when-bytes-were-added', 'fault', ['C17'], ['SA-GUARD.layout'],
+  [(PY, "                self.udf_logical_volume_integrity.size_tables[0] += num_extents_to_add\n\n        self._layout_changed = True\n", "                self.udf_logical_volume_integrity.size_tables[0] += num_extents_to_add\n\n        if num_bytes_to_add + num_partition_bytes_to_add > 0:\n            self._layout_changed = True\n")], 'stays False')
 M('layout-guard-only-in-lazy-mode', 'fault', ['C17'], ['SA-GUARD.layout'],
   [(PY, "                self.udf_logical_volume_integrity.size_tables[0] += num_extents_to_add\n\n        self._layout_changed = True\n", "                self.udf_logical_volume_integrity.size_tables[0] += num_extents_to_add\n\n        if not self._always_consistent:\n            self._layout_changed = True\n")], 'stays False')
 M('layout-guard-lowered-by-force-consistency', 'fault', ['C17'], ['SA-GUARD.layout'],
@@ -547,6 +547,12 @@ M('basename-sanitised-case-insensitively-before-upper', 'fault', ['C18'], ['SA-S
   [(UT, "    valid_base = basename.upper()[:maxlen]\n", "    valid_base = re.sub('[^A-Z0-9_]{1}', r'_', basename, flags=re.IGNORECASE).upper()[:maxlen]\n    return valid_base\n")], 'non-ASCII')
 M('tool-udf-link-guarded-by-joliet-switch', 'fault', ['C20'], ['SA-SIB.tool_views'],
   [(GEN, "                    if udf_path is not None and not hide_udf:\n", "                    if udf_path is not None and not hide_joliet:\n")], 'another view')
+
+
+M('force-consistency-recomputes-unconditionally', 'fault', ['C17'], ['SA-GUARD.layout'],
+  [(PY, "        if self._needs_reshuffle:\n            self._reshuffle_extents()\n\n    def set_relocated_name(self, name, rr_name):", "        self._reshuffle_extents()\n\n    def set_relocated_name(self, name, rr_name):")], 'unconditionally')
+M('twin-force-consistency-raises-the-guard-instead', 'twin', ['C17', 'C06'], [],
+  [(PY, "        if self._needs_reshuffle:\n            self._reshuffle_extents()\n\n    def set_relocated_name(self, name, rr_name):", "        self._layout_changed = True\n        self._reshuffle_extents()\n\n    def set_relocated_name(self, name, rr_name):")])
 
 
 def applicable(m, sources):
